@@ -15,11 +15,14 @@ order of lists that the code itself leaves unsorted; the harness compares those 
 Go panics are explicit outcomes (`Except Fault`). The places where the code on the unchanged tree
 can panic are guarded by the switches of `Fixes`; the checked tree is modelled by `Fixes.all`.
 -/
+import Nsq.Model.Latency
+
 namespace Nsq.Model.Aggregate
 
 inductive Fault
   | indexOutOfRange (site : String)
   | nilDeref (site : String)
+  | nilMapWrite (site : String)
 deriving DecidableEq, Repr
 
 /-- Which guards the tree has. `all` = the tree with the proposed fixes. -/
@@ -28,10 +31,11 @@ structure Fixes where
   nilElems     : Bool   -- null producers / topics / channels / clients are skipped
   nilE2e       : Bool   -- TopicStats.Add / ChannelStats.Add tolerate a missing e2e latency
   chanNotFound : Bool   -- channelHandler answers 404 when no node reports the channel
+  nilPct       : Bool := true   -- E2eProcessingLatencyAggregate.UnmarshalJSON drops null percentile entries (F24)
 deriving DecidableEq, Repr
 
-def Fixes.all : Fixes := ⟨true, true, true, true⟩
-def Fixes.unfixed : Fixes := ⟨false, false, false, false⟩
+def Fixes.all : Fixes := ⟨true, true, true, true, true⟩
+def Fixes.unfixed : Fixes := ⟨false, false, false, false, false⟩
 
 /-! ### What the upstreams say -/
 
@@ -78,6 +82,7 @@ structure Chan where
   paused : Bool
   clients : List (Option Client)     -- `none` = JSON null
   e2e : Bool                         -- `e2e_processing_latency` present and not null
+  pct : List Latency.Pct := []       -- shape of its `percentiles` array (see `Nsq.Model.Latency`)
 deriving DecidableEq, Repr
 
 /-- One topic in an nsqd `/stats` answer. -/
@@ -87,6 +92,7 @@ structure Topic where
   paused : Bool
   channels : List (Option Chan)
   e2e : Bool
+  pct : List Latency.Pct := []
 deriving DecidableEq, Repr
 
 /-- A producer object as nsqlookupd's `/nodes` and `/lookup` send it. `addr` stands for
@@ -517,6 +523,30 @@ def topicsOfNode (fx : Fixes) (p : Producer) (selTopic : String) :
           .ok ({ node := p.addr, hostname := p.hostname, name := t.name, cnt := t.cnt.derive,
                  paused := t.paused, channels := cns, e2e := t.e2e } :: tns, m'')
 
+/-! Decoding one nsqd's `/stats` answer into `[]*TopicStats` (`json.Unmarshal` inside `GETV1`, inside
+the fetch goroutine) runs `E2eProcessingLatencyAggregate.UnmarshalJSON` on the latency document of
+*every* topic and channel of the answer — before any `selectedTopic` filter — and that method writes
+to every entry of `percentiles`. -/
+
+def pctDecodes (fx : Fixes) (e2e : Bool) (pct : List Latency.Pct) : Bool :=
+  !e2e || fx.nilPct || pct.all (·.isSome)
+
+def chanDecodes (fx : Fixes) : Option Chan → Bool
+  | none => true
+  | some c => pctDecodes fx c.e2e c.pct
+
+def topicDecodes (fx : Fixes) : Option Topic → Bool
+  | none => true
+  | some t => pctDecodes fx t.e2e t.pct && t.channels.all (chanDecodes fx)
+
+def statsDecodes (fx : Fixes) (ans : List (Option Topic)) : Bool := ans.all (topicDecodes fx)
+
+/-- One producer's answer inside the GetNSQDStats goroutine: decode, then the loop over the topics. -/
+def nodeAnswer (fx : Fixes) (p : Producer) (selTopic : String) (ans : List (Option Topic)) (m : ChanMap) :
+    Except Fault (List TopicNode × ChanMap) :=
+  if statsDecodes fx ans then topicsOfNode fx p selTopic ans m
+  else .error (.nilMapWrite "E2eProcessingLatencyAggregate.UnmarshalJSON p[\"min\"]")
+
 def nsqdStatsGo (fx : Fixes) (w : World) (selTopic selChan : String) (incl : Bool) :
     List Producer → List TopicNode → ChanMap → Nat → Except Fault (List TopicNode × ChanMap × Nat)
   | [], ts, m, failed => .ok (ts, m, failed)
@@ -524,7 +554,7 @@ def nsqdStatsGo (fx : Fixes) (w : World) (selTopic selChan : String) (incl : Boo
     match statsOf w p.addr selTopic (if selTopic == "" then "" else selChan) incl with
     | none => nsqdStatsGo fx w selTopic selChan incl rest ts m (failed + 1)
     | some ans =>
-      match topicsOfNode fx p selTopic ans m with
+      match nodeAnswer fx p selTopic ans m with
       | .error e => .error e
       | .ok (tns, m') => nsqdStatsGo fx w selTopic selChan incl rest (ts ++ tns) m' failed
 
